@@ -5,6 +5,7 @@ import (
 	"runtime"
 	"strings"
 	"sync"
+	"time"
 
 	"github.com/DrmagicE/gmqtt/pkg/packets"
 	"github.com/DrmagicE/gmqtt/server"
@@ -24,7 +25,80 @@ var (
 	apiOps      = map[string]func(d *brokerDrv, pos []string, m map[string]string) string{}
 )
 
-func init() { extraOps["race"] = raceOp; extraOps["cpub"] = parOp }
+func init() { extraOps["race"] = raceOp; extraOps["cpub"] = parOp; extraOps["pp"] = pingPongOp }
+
+// pingPongOp: `pp <conn> k=<n> q=<1|2> pid0=<p>` — a well-behaved client with ONE publish in flight at a time: it sends a
+// QoS>0 PUBLISH (to a topic nobody subscribes), waits for the acknowledgement and sends the next packet THE MOMENT the
+// acknowledgement has arrived (no wait for the broker to come to rest in between). With `new … wdelay=<ms>` the broker's
+// write calls return only after the client has seen the bytes, so whatever the broker does "after the write" races with
+// the client's next packet. Prints `pp acks=<n> disc=<code|-> closed=<0|1>`.
+func pingPongOp(d *brokerDrv, pos []string, m map[string]string) string {
+	if len(pos) < 1 {
+		return "bad-op"
+	}
+	c := d.b.Conns[pos[0]]
+	if c == nil || c.EOF() {
+		return "no-conn"
+	}
+	k, q, pid0 := geti(m, "k", 5), byte(geti(m, "q", 1)), geti(m, "pid0", 1000)
+	seen := len(c.Received())
+	waitFor := func(typ byte, pid uint16) bool {
+		deadline := time.Now().Add(3 * time.Second)
+		for time.Now().Before(deadline) {
+			ps := c.Received()
+			for ; seen < len(ps); seen++ {
+				if ps[seen].Type == typ && ps[seen].PacketID == pid {
+					seen++
+					return true
+				}
+				if ps[seen].Type == packets.DISCONNECT {
+					return false
+				}
+			}
+			if c.EOF() {
+				return false
+			}
+			runtime.Gosched()
+		}
+		return false
+	}
+	acks := 0
+	for i := 0; i < k; i++ {
+		pid := uint16(pid0 + i)
+		pp := &packets.Publish{Version: c.Version, TopicName: []byte("zz/pp"), Qos: q, PacketID: pid, Payload: []byte("x")}
+		if c.Version == 5 {
+			pp.Properties = &packets.Properties{}
+		}
+		if c.Send(pp) != nil {
+			break
+		}
+		if q == 1 {
+			if !waitFor(packets.PUBACK, pid) {
+				break
+			}
+		} else {
+			if !waitFor(packets.PUBREC, pid) {
+				break
+			}
+			if c.Send(&packets.Pubrel{PacketID: pid}) != nil || !waitFor(packets.PUBCOMP, pid) {
+				break
+			}
+		}
+		acks++
+	}
+	d.collect("")
+	disc := "-"
+	for _, p := range c.Received() {
+		if p.Type == packets.DISCONNECT {
+			disc = fmt.Sprint(p.Code)
+		}
+	}
+	closed := 0
+	if c.EOF() {
+		closed = 1
+	}
+	return fmt.Sprintf("pp acks=%d disc=%s closed=%d", acks, disc, closed)
+}
 
 func brokerOptions(d *brokerDrv, m map[string]string) []server.Options {
 	var opts []server.Options
